@@ -190,3 +190,49 @@ def to_dict_stage(args):
         return ['ERR', 'Recursion']
     except Exception as e:
         return ['ERR', exc_kind(e)]
+
+# ---------------------------------------------------------------------------------------
+# e2e / post stages as sx trees (date masked)
+# ---------------------------------------------------------------------------------------
+def mask_dates(x):
+    if x[0] == 'E':
+        return ['E', x[1], [[k, ('D' if (k == 'date' and _DATE.fullmatch('date="%s"' % v)) else v)] for k, v in x[2]], [mask_dates(k) for k in x[3]]]
+    return x
+
+def canon_err(kind):
+    return 'ValueError' if kind in ('XmlChar', 'XmlName', 'ValueError') else kind
+
+def e2e_sx(args):
+    """(uri, root, prefix, text) -> xml sx (dates masked) | ['ERR', kind]"""
+    import sys
+    from . import xmlsx
+    from bluebell.parser import AkomaNtosoParser
+    from cobalt import FrbrUri
+    uri, root, prefix, text = args
+    sys.setrecursionlimit(20000)
+    try:
+        x = AkomaNtosoParser(FrbrUri.parse(uri), prefix).parse_to_xml(text, root)
+        return mask_dates(xmlsx.norm_sx(xmlsx.to_sx(x)))
+    except RecursionError:
+        return ['ERR', 'Recursion']
+    except Exception as e:
+        return ['ERR', canon_err(exc_kind(e))]
+
+def post_step(args):
+    """(step, prefix, tree sx) -> tree sx | ['ERR', kind]; step in displaced|normalise|titles|all"""
+    from . import xmlsx
+    from bluebell.xml import XmlGenerator
+    from cobalt import FrbrUri
+    step, prefix, tree = args
+    try:
+        el = xmlsx.from_sx(tree)
+        g = XmlGenerator(FrbrUri.parse('/akn/za/act/2009/1'), prefix)
+        if step == 'displaced': el = g.resolve_displaced_content(el)
+        elif step == 'normalise': el = g.normalise(el)
+        elif step == 'titles': el = g.set_attachment_titles(el)
+        else: el = g.post_process(el)
+        return xmlsx.norm_sx(xmlsx.to_sx(el))
+    except RecursionError:
+        return ['ERR', 'Recursion']
+    except Exception as e:
+        return ['ERR', canon_err(exc_kind(e))]
